@@ -120,6 +120,11 @@ func TestC19Store(t *testing.T) {
 		}
 
 		idPool := []string{"a", "b", "c", "d", ""} // "": a resource whose ID is missing
+		var (
+			sharedType *jsonapi.Type
+			sharedSpec gen.TypeSpec
+		)
+
 		batchIDs := []string{}
 		batchSeq := 0
 		bulk := rapid.IntRange(0, 3).Draw(t, "bulk") == 0
@@ -170,6 +175,16 @@ func TestC19Store(t *testing.T) {
 				}
 
 				res := gen.NewResource(spec)
+
+				// Several soft resources may share one *Type value (resources
+				// of one model): the pointer of an earlier Add is used again.
+				if !ts.Struct && sharedType != nil && rapid.IntRange(0, 2).Draw(t, "sharedType") == 0 {
+					ts = sharedSpec
+					spec = &ts
+					res = &jsonapi.SoftResource{Type: sharedType}
+				} else if sr, ok := res.(*jsonapi.SoftResource); ok && !ts.Struct {
+					sharedType, sharedSpec = sr.Type, ts
+				}
 
 				// A soft resource made from the collection's own type pointer
 				// (col.Type.New()), which is how a user creates an element of
